@@ -31,7 +31,7 @@ def judge_env(dump):
             e["cat"] = u["cat"]
         units.append(e)
     return {"units": units, "base": dump["base"], "long_names": dump["long_names"], "categories": dump["categories"],
-            "category_names": dump["category_names"], "quantities": dump["quantities"]}
+            "category_names": dump["category_names"], "quantities": dump["quantities"], "decomposition": dump["decomposition"]}
 
 
 def dkey(dims_json):
@@ -59,6 +59,7 @@ def dump_groups(dump):
     qname = {}
     for q in dump["quantities"]:
         qname[dkey(q["dims"])] = q["s"]
+    derived = {dkey(x["dims"]): s_of(x["name"]) for x in dump["decomposition"]}
     keys = set(qname)
     for u in dump["units"]:
         keys.add(dkey(u["val"]["d"]))
@@ -67,7 +68,9 @@ def dump_groups(dump):
         forms = ([qname[k]] if k in qname else []) + [frac_text(k)]
         if pow_text(k) != frac_text(k):
             forms.append(pow_text(k))
-        groups.append({"dims": dstr(k), "forms": forms, "named": k in qname})
+        if k in derived:
+            forms.append(derived[k])          # an SI derived unit of value 1: `watt`
+        groups.append({"dims": dstr(k), "forms": forms, "named": k in qname, "w": sum(abs(e) for _, e in k)})
     return groups
 
 
@@ -83,7 +86,7 @@ def gen_vectors(run):
     groups = []
     for c in cases:
         texts = list(dict.fromkeys(s_of(t) for t in c["texts"]))
-        groups.append({"dims": "kg^%d m^%d s^%d" % tuple(c["e"]), "forms": texts, "named": False})
+        groups.append({"dims": "kg^%d m^%d s^%d" % tuple(c["e"]), "forms": texts, "named": False, "w": sum(abs(e) for e in c["e"])})
     return groups
 
 
@@ -187,24 +190,28 @@ def decide(run, groups, events, envp, shards, label, count_nontrivial=True):
 
 
 def selfcheck(run, envp):
-    """corrupted replies must be rejected with the matching diagnostic; the genuine ones are accepted"""
-    g = [{"dims": "velocity", "forms": ["velocity", "m / s"], "named": True}]
+    """corrupted replies must be rejected with the matching diagnostic"""
+    g = [{"dims": "m^1 s^-1", "forms": ["velocity", "m / s"], "named": True}]
     evu, _ = ask(g, "unitsfor", 1, 20000, "c17su")
     evf, _ = ask(g, "factorize", 1, 60000, "c17sf")
     good_u, good_f = evu[0], evf[0]
-    if good_u["forms"][0]["obs"]["t"] != "unitsfor" or good_f["forms"][0]["obs"]["t"] != "factorize":
-        raise vlib.ToolError("self-check: no unitsfor / factorize reply for velocity")
+    verdicts, _ = regkit.judge([good_u, good_f], "Trace_UnitsFor", envp, shards=1, tag="c17selfj0", min_per_shard=25)
+    cats = good_u["forms"][0]["obs"].get("cats", [])
+    prods = good_f["forms"][0]["obs"].get("list", [])
+    if any(t in ("REJECT", "CRASH", "BADGROUP") for v in verdicts.values() for t, _ in v) or len(cats) < 2 or len(prods) < 2:
+        # the code under test answers `units for velocity` / `factorize velocity` wrongly: a finding, not a tool failure
+        # (both queries are part of the main legs, which report it)
+        decide(run, g + g, [good_u, good_f], envp, 1, "self-check (genuine replies)")
+        run.note("selfcheck_corrupted_replies_rejected", "skipped: the genuine replies are already rejected")
+        return
 
     def variant(ev, fn):
         e = json.loads(json.dumps(ev))
         e["forms"] = e["forms"][:1]
         fn(e["forms"][0]["obs"])
         return e
-    cats = good_u["forms"][0]["obs"]["cats"]
     big = max(range(len(cats)), key=lambda i: len(cats[i]["units"]))
     other = (big + 1) % len(cats)
-    if len(cats) < 2 or len(good_f["forms"][0]["obs"]["list"]) < 2:
-        raise vlib.ToolError("self-check: velocity has fewer than 2 categories / factorizations")
 
     def move(o):
         u = o["cats"][big]["units"].pop()
@@ -223,15 +230,13 @@ def selfcheck(run, envp):
     ]
     differs = json.loads(json.dumps(good_u))
     differs["forms"][1]["obs"]["cats"][big]["units"].pop()
-    events = [good_u, good_f] + [e for _, e in bad] + [differs]
+    events = [e for _, e in bad] + [differs]
     verdicts, _ = regkit.judge(events, "Trace_UnitsFor", envp, shards=1, tag="c17selfj", min_per_shard=25)
     got = {i: [parse_detail(d)[1] for t, d in v if t == "REJECT"] for i, v in verdicts.items()}
-    if got.get(0) or got.get(1):
-        raise vlib.ToolError("self-check: genuine replies for velocity were rejected: %s" % got)
     for k, (what, _) in enumerate(bad):
-        if what not in got.get(2 + k, []):
+        if what not in got.get(k, []):
             raise vlib.ToolError("self-check: corrupted reply (%s) was not rejected by Trace_UnitsFor: %s" % (what, got))
-    if "differs" not in got.get(2 + len(bad), []):
+    if "differs" not in got.get(len(bad), []):
         raise vlib.ToolError("self-check: two forms with different answers were not rejected: %s" % got)
     run.note("selfcheck_corrupted_replies_rejected", len(bad) + 1)
 
@@ -264,15 +269,17 @@ def run(tier, seed):
     run.sample({"kind": "unitsfor", "forms": dgroups[len(dgroups) // 2]["forms"]})
     run.sample({"kind": "unitsfor", "forms": ggroups[len(ggroups) // 3]["forms"]})
 
-    # factorize
+    # factorize: the code's search is exponential in the total exponent weight w of X (measured: w <= 6 below 5 s,
+    # w = 9 above 90 s); the quick tier samples among w <= 6
     if thorough:
-        fgroups = dgroups + rng.sample(ggroups, 60)
+        fgroups = dgroups + rng.sample([g for g in ggroups if g["w"] <= 7], 60)
         limit = 300000
     else:
-        named = [g for g in dgroups if g["named"]]
-        fgroups = rng.sample(named, 28) + rng.sample([g for g in dgroups if not g["named"]], 8) + rng.sample(ggroups, 4)
+        cheap = [g for g in dgroups if g["w"] <= 6]
+        fgroups = (rng.sample([g for g in cheap if g["named"]], 30) + rng.sample([g for g in cheap if not g["named"]], 6)
+                   + rng.sample([g for g in ggroups if 2 <= g["w"] <= 6], 4))
         fgroups = [dict(g, forms=g["forms"][:2]) for g in fgroups]
-        limit = 45000
+        limit = 60000
     t0 = time.time()
     ev, _ = ask(fgroups, "factorize", 16, limit, "c17f")
     log("[C17] factorize: %d queries in %.1fs" % (sum(len(e["forms"]) for e in ev), time.time() - t0))
